@@ -169,11 +169,12 @@ ACTS = {
     'SIR_FixedRecovery.infect': ['CCL INFECTED', 'OCC', 'HIT', 'POSTL T SIR.remove'],
     'SIS_FixedRecovery.infect': ['CCL INFECTED', 'OCC', 'HIT', 'POSTL T SIS.recover'],
     'Opinion.affect': ['CCL SPREADER', 'OCC', 'HIT'], 'Opinion.stifle': ['CCL STIFLER'],
+    'VarInfFixed.infect': ['CCL INFECTED', 'OCC', 'HIT', 'POSTL T SIR.remove'],       # a user process of the harness (simprofiles.VarInfFixed)
     'Monitor.observe': ['OBSERVE'],
     'AddDelete.add': ['ADADD'], 'AddDelete.delete': ['ADDEL'],
     'SIvR.infect': ['SIVR'], 'SIvR.remove': ['CCL REMOVED', 'PLEAVE INFECTED_V', 'PLEAVE INFECTED_N'], 'Vaccinate.vaccinate': ['VACC'],
 }
-EDGE_HANDLERS = {'SIR.infect', 'SIS.infect', 'SEIR.infect', 'SEIR.infectAsymptomatic', 'SIR_FixedRecovery.infect',
+EDGE_HANDLERS = {'VarInfFixed.infect', 'SIR.infect', 'SIS.infect', 'SEIR.infect', 'SEIR.infectAsymptomatic', 'SIR_FixedRecovery.infect',
                  'SIS_FixedRecovery.infect', 'Opinion.affect', 'Opinion.stifle', 'SIvR.infect'}
 
 
@@ -765,7 +766,7 @@ def run_case(case):
                 i = ex.inst[id(p)]; ci = ex.cidx[id(p)]
                 setup.append(f"S_INITC {i} " + ' '.join(f"{ci[c]}:{fb(pp)}" for c, pp in p._compartments.items()))
                 for (n, ck) in getattr(p, '_vp_force', ()): setup.append(f"S_FORCE {i} {n} {ci[getattr(p, ck)]}")
-                if isinstance(p, SIR_FixedRecovery):
+                if isinstance(p, SIR_FixedRecovery) or getattr(p, 'VP_POSTC', False):
                     setup.append(f"S_POSTC {i} {ci[p.INFECTED]} {fb(p._tInfected)} {ex.hid(p.remove)}")
                 if isinstance(p, SIS_FixedRecovery):
                     setup.append(f"S_POSTC {i} {ci[p.INFECTED]} {fb(p._tInfected)} {ex.hid(p.recover)}")
